@@ -88,10 +88,21 @@ def geom_json(g):
 
 
 def build(inp):
-    """abstract input -> (clip_predictions, clip_annotations, vocabulary tags)"""
+    """abstract input -> (clip_predictions, clip_annotations, vocabulary tags)
+
+    With `inp["tagpool"]` (a list of tag descriptors, see `harness/tagpool.py`) a tag id is a position in
+    that pool and every use builds a new Tag object; without it the eight tags above are used."""
     from soundevent import data
     rec = _base()["rec"]
     ses = {}
+    if inp.get("tagpool") is not None:
+        from . import tagpool
+        descs = inp["tagpool"]
+
+        def tag(t):
+            return tagpool.fresh(descs[t])
+    else:
+        tag = globals()["tag"]
 
     def sound_event(ev):
         key = (ev["id"], gkey(ev["geom"]))
